@@ -184,6 +184,30 @@ fn main() {
                 _ => h2c!(G2, Fq2, ExpandMsgXof<sha3::Shake128>, out_g2),
             }
         }
+        // ---- products of pairings through the real code: out = [FE(joint loop), product of the single pairings, pairing_multi_product, pairing_product (n = 2) or "",
+        //      FE(joint loop) again with the SAME prepared elements, joint Miller value, product of the single-pair Miller values], each as 12 coefficients joined by ","
+        "pairings" => {
+            let n: usize = e.s("n").parse().unwrap();
+            let ps: Vec<G1Affine> = (0..n).map(|i| e.g1(&format!("p{}", i)).into_affine()).collect();
+            let qs: Vec<G2Affine> = (0..n).map(|i| e.g2(&format!("q{}", i)).into_affine()).collect();
+            let pp: Vec<_> = ps.iter().map(|p| p.prepare()).collect();
+            let qp: Vec<_> = qs.iter().map(|q| q.prepare()).collect();
+            let refs: Vec<(&_, &_)> = pp.iter().zip(qp.iter()).collect();
+            let j12 = |x: &Fq12| { let mut o = Vec::new(); o12(x, &mut o); o.join(",") };
+            std::panic::set_hook(Box::new(|_| {}));
+            let r = std::panic::catch_unwind(std::panic::AssertUnwindSafe(|| {
+            let mut out: Vec<String> = Vec::new();
+            let ml = Bls12::miller_loop(refs.iter());
+            let joint = Bls12::final_exponentiation(&ml).unwrap();
+            let mut prod = Fq12::one(); let mut mlprod = Fq12::one();
+            for i in 0..n { prod.mul_assign(&Bls12::pairing(ps[i], qs[i])); mlprod.mul_assign(&Bls12::miller_loop([(&pp[i], &qp[i])].iter())); }
+            let multi = Bls12::pairing_multi_product(&ps, &qs);
+            let two = if n == 2 { j12(&Bls12::pairing_product(ps[0], qs[0], ps[1], qs[1])) } else { String::new() };
+            let again = Bls12::final_exponentiation(&Bls12::miller_loop(refs.iter())).unwrap();
+            out.push(j12(&joint)); out.push(j12(&prod)); out.push(j12(&multi)); out.push(two); out.push(j12(&again)); out.push(j12(&ml)); out.push(j12(&mlprod));
+            out }));
+            match r { Ok(o) => { out = o; } Err(_) => { tag = "panic".into(); } }
+        }
         // ---- multi-scalar multiplication: points p0.., scalars k0.. (n of each unless np / nk say otherwise)
         "msm_g1" | "msm_g2" => {
             let np: usize = e.s("np").parse().unwrap(); let nk: usize = e.s("nk").parse().unwrap(); let op = e.s("op");
